@@ -9,7 +9,7 @@ points to the sender's own HTTP server in every message on the wire.
 """
 import ssl
 
-from vf.hutil import Oracle, exc_result, quiet, untraced
+from vf.hutil import Oracle, exc_result, pick, quiet, untraced
 
 quiet()
 
@@ -298,3 +298,107 @@ def cert_contexts(ca_file: bool, via_folder: bool, cyphers: bool) -> str:
     cfg = (bool(ca_file), bool(via_folder), bool(cyphers))
     with untraced():
         return _contexts(*cfg)
+
+
+def _consumer_foreign_shared_server(c_alt):
+    """A TLS-ENFORCING consumer that the application starts on a shared HTTP server WITHOUT a TLS context: either the
+    configuration is rejected, or no plaintext NotifyTo / EndTo / base_url is ever advertised."""
+    orc = Oracle()
+    stage = 'setup'
+    try:
+        Net.reset(handshake_fails=False)
+        pc, cc = lk.mk_container(True), lk.mk_container(True)
+        dev = lk.mk_provider(pc, False)
+        lk.start_provider(dev, None)
+        cons = lk.mk_consumer(dev.get_xaddrs()[0], cc, True, c_alt)
+        stage = 'start_all'
+        rejected = False
+        try:
+            lk.start_consumer(cons, lk.mk_shared_server(None))
+        except ValueError:
+            rejected = True          # refusing the configuration is the safe answer
+        except (ssl.SSLError, ConnectionError, OSError, lk.http.client.HTTPException):
+            pass
+        c_port = lk.own_server_port(cons)
+        if c_port is not None:
+            for scheme, where in _urls('consumer', c_port):
+                orc.check(scheme == 'https', 'plaintext_url_advertised:' + where)
+        if not rejected:
+            orc.check(str(cons.base_url).startswith('https://'), 'plaintext_url_advertised:consumer_base_url')
+        for c in _conns('consumer'):
+            orc.check(c['tls'] and c['context'] is cc.client_context, 'client_without_tls_context:consumer')
+        try:
+            cons.stop_all(unsubscribe=False)
+            dev.stop_all(send_subscription_end=False)
+        except Exception:  # noqa: BLE001, S110
+            pass
+    except Exception as ex:  # noqa: BLE001
+        return exc_result(orc, ex, stage)
+    return orc.result()
+
+
+def consumer_foreign_shared_server(c_alt: bool) -> str:
+    """
+    TLS-enforcing consumer on a shared plain http server (with / without alternative hostname).
+    post: __return__ == 'ok'
+    """
+    c_alt = bool(c_alt)
+    with untraced():
+        return _consumer_foreign_shared_server(c_alt)
+
+
+def async_client_redirect(status: int, target: int) -> str:
+    """
+    The REAL SoapClientAsync (what a provider with the default components uses for notifications and SubscriptionEnd) gets a
+    redirect answer (301 / 302 / 307 / 308) that points to a plain http:// address, to another https:// address or to a
+    relative path: it must not follow it (a second connection outside the configured one) - the answer is a failed delivery.
+    pre: 0 <= status < 4
+    pre: 0 <= target < 3
+    post: __return__ == 'ok'
+    """
+    import asyncio
+    from types import SimpleNamespace
+    from harness import httpstubs as hs
+    from sdc11073.definitions_sdc import SdcV1Definitions
+    from sdc11073.pysoap.msgreader import MessageReader
+    from sdc11073.pysoap.soapclient_async import SoapClientAsync
+    status, target = pick(status, (301, 302, 307, 308)), pick(target, ('http://10.0.0.9:80/leak', 'https://10.0.0.9/x', '/other'))
+    with untraced():
+        orc = Oracle()
+        try:
+            calls = []
+
+            class Resp:
+                reason = 'redirect'
+                headers = {'Location': target}
+
+                async def text(self):
+                    return ''
+
+                async def __aenter__(self):
+                    return self
+
+                async def __aexit__(self, *a):
+                    return False
+            Resp.status = status
+
+            def post(path, data=None, headers=None, **kw):
+                calls.append(kw)
+                return Resp()
+            reader = MessageReader(SdcV1Definitions, None, hs.NullLogger(), validate=False)
+            cl = SoapClientAsync('h:1', 1.0, hs.NullLogger(), None, SdcV1Definitions, reader, supported_encodings=[], request_encodings=[],
+                                 chunk_size=0)
+            cl._http_connection = SimpleNamespace(post=post, closed=False)
+            msg = SimpleNamespace(p_msg=None, serialize=lambda request_manipulator=None: b'<?xml version="1.0" encoding="utf-8"?><x/>')
+            outcome = 'returned'
+            try:
+                asyncio.run(cl.async_post_message_to('/sink', msg))
+            except Exception as ex:  # noqa: BLE001
+                outcome = type(ex).__name__
+            orc.check(len(calls) == 1, 'harness:not-exactly-one-post')
+            # aiohttp follows redirects unless told otherwise: the request must say so
+            orc.check(calls and calls[0].get('allow_redirects') is False, 'redirect_would_be_followed_outside_the_tls_connection')
+            orc.check(outcome == 'HTTPReturnCodeError', 'redirect_answer_not_a_failed_delivery:' + outcome)
+        except Exception as ex:  # noqa: BLE001
+            return exc_result(orc, ex, 'redirect')
+        return orc.result()
